@@ -438,7 +438,8 @@ static bool lin_search(std::vector<LinOp> &ops, std::vector<char> &done, Map &m,
 }
 
 // ------------------------------------------------------------------ one execution
-struct ExecOut { bool ok = true; std::string why; std::vector<int> choices; size_t events = 0; std::string history; };
+struct ExecOut { bool ok = true; std::string why; std::vector<int> choices; size_t events = 0; std::string history;
+                 std::string lin; bool lin_accepted = false; };
 
 static const char *evname(int k) {
   switch (k) {
@@ -580,7 +581,27 @@ static ExecOut execute(uint64_t seed, int mode, int preempts, const std::vector<
     Map m;
     for (auto &kv : g_prefill) m[kv.first] = kv.second;
     std::vector<char> done(ops.size(), 0);
-    if (!lin_search(ops, done, m, final_map, 0)) {
+    // the same history as a request for the verified checker of the Lean driver (`lin ...`, Driver/Lin.lean)
+    {
+      std::string L = "lin " + std::to_string(g_prefill.size());
+      for (auto &kv : g_prefill) L += " " + std::to_string(kv.first) + " " + std::to_string(kv.second);
+      L += " " + std::to_string(final_map.size());
+      for (auto &kv : final_map) L += " " + std::to_string(kv.first) + " " + std::to_string(kv.second);
+      L += " " + std::to_string(ops.size());
+      for (auto &o : ops) {
+        L += " " + std::to_string(o.tid) + " " + std::to_string(o.inv) + " " + std::to_string(o.resp) + " " + o.op->kind;
+        if (o.op->kind == "section") {
+          L += " " + std::to_string(o.op->body.size());
+          for (auto &x : o.op->body) L += " " + x.kind + " " + std::to_string(x.a) + " " + std::to_string(x.b);
+          L += " " + (o.res.empty() ? std::string(",") : o.res);
+        } else {
+          L += " " + std::to_string(o.op->a) + " " + std::to_string(o.op->b) + " " + (o.res.empty() ? std::string("?") : o.res);
+        }
+      }
+      out.lin = L;
+    }
+    if (lin_search(ops, done, m, final_map, 0)) out.lin_accepted = true;
+    else {
       out.ok = false;
       std::string fm;
       for (auto &kv : final_map) fm += std::to_string(kv.first) + "=" + std::to_string(kv.second) + " ";
@@ -672,14 +693,18 @@ int main() {
       is >> mode >> pre >> seed0 >> count >> opt;
       FILE *pf = nullptr;
       if (opt == "ptrace") { is >> ppath >> pevery; pf = fopen(ppath.c_str(), "a"); if (pevery < 1) pevery = 1; }
-      long bad = 0, bad_obs = 0; size_t events = 0; std::string first_why, first_hist, first_choices, trace;
+      long bad = 0, bad_obs = 0; size_t events = 0; std::string first_why, first_hist, first_choices, trace, first_lin;
       uint64_t first_seed = 0;
       bool first_is_obs = false;
       for (long i = 0; i < count; ++i) {
         std::string tr;
         ExecOut o = execute(seed0 + i, mode, pre, {}, opt == "trace" && i == 0, &tr);
         if (opt == "trace" && i == 0) trace = tr;
-        if (pf && i % pevery == 0) { std::string pt = ptrace_text(); fwrite(pt.data(), 1, pt.size(), pf); }
+        if (pf && i % pevery == 0) {
+          std::string pt = ptrace_text(); fwrite(pt.data(), 1, pt.size(), pf);
+          // a history the C++ search accepted: the verified checker must accept it too
+          if (o.lin_accepted && !o.lin.empty()) { fwrite(o.lin.data(), 1, o.lin.size(), pf); fputc('\n', pf); }
+        }
         events += o.events;
         if (!o.ok) {
           bool obs = o.why.rfind("protocol:", 0) != 0;
@@ -687,6 +712,7 @@ int main() {
           // keep the first execution with an observable failure; else the first protocol-only one
           if (!bad || (obs && !first_is_obs)) {
             first_why = o.why; first_hist = o.history; first_seed = seed0 + i; first_is_obs = obs;
+            first_lin = o.why.rfind("history is not linearizable", 0) == 0 ? o.lin : std::string();
             first_choices.clear();
             for (int c : o.choices) first_choices += std::to_string(c) + " ";
           }
@@ -697,6 +723,7 @@ int main() {
              (unsigned long long)first_seed, jesc(first_why).c_str(), jesc(first_hist).c_str(), first_choices.c_str());
       if (pf) fclose(pf);
       if (opt == "trace") printf(",\"trace\":\"%s\"", jesc(trace).c_str());
+      if (!first_lin.empty()) printf(",\"lin\":\"%s\"", jesc(first_lin).c_str());
       printf("}\n");
       fflush(stdout);
     } else if (w == "replay") {
